@@ -58,38 +58,46 @@ func TestC02(t *testing.T) {
 	if !h.Thorough() {
 		every = 3
 	}
+	flush := func() {
+		batch := starts
+		starts = nil
+		parallel(len(batch), func(i int) {
+			if run.Expired() {
+				run.Count("closures_skipped_deadline", 1)
+				return
+			}
+			st := batch[i]
+			r := w.Closure(t, st.sc, st.s, w.ClosureOpts{Validate: true, Resume: true})
+			run.Count("closures", 1)
+			replay := func() interface{} {
+				r2 := w.Closure(t, st.sc, st.s, w.ClosureOpts{Validate: true, Resume: true, Trace: true})
+				return map[string]interface{}{"scenario": st.sc.Name, "start_state": st.s.Describe(), "closure_trace": r2.Trace, "final_state": r2.Final.Describe()}
+			}
+			if !r.Converged {
+				run.Violate(h.Violation{Signature: "C02/converge: fair reconciliation does not reach a lasting fixpoint: " + classify(r.Why), Monitor: "C02/closure", Message: r.Why, Replay: replay()})
+				return
+			}
+			run.Count("antecedent:C02/fixpoint", 1)
+			run.Nontrivial(fmt.Sprintf("rounds:%s:%d", st.sc.Name, r.Rounds))
+			for _, e := range r.Final.EDSs() {
+				if sig, msg := w.CheckConverged(r.Final, e.Namespace, e.Name); sig != "" {
+					run.Violate(h.Violation{Signature: sig, Monitor: "C02/fixpoint", Message: msg, Replay: replay()})
+				}
+			}
+		})
+	}
 	k := 0
+	// closures run in batches while the search proceeds, so that the start states need not all be kept in memory
 	runWorld(t, run, c02Scenarios(), nil, 0, func(sc *w.Scenario, s *w.State, d int) {
 		k++
 		if k%every == 0 || d == 0 {
 			starts = append(starts, start{sc, s})
-		}
-	})
-	fmt.Printf("  closures to run: %d\n", len(starts))
-	parallel(len(starts), func(i int) {
-		if run.Expired() {
-			run.Count("closures_skipped_deadline", 1)
-			return
-		}
-		st := starts[i]
-		r := w.Closure(t, st.sc, st.s, w.ClosureOpts{Validate: true, Resume: true})
-		run.Count("closures", 1)
-		replay := func() interface{} {
-			r2 := w.Closure(t, st.sc, st.s, w.ClosureOpts{Validate: true, Resume: true, Trace: true})
-			return map[string]interface{}{"scenario": st.sc.Name, "start_state": st.s.Describe(), "closure_trace": r2.Trace, "final_state": r2.Final.Describe()}
-		}
-		if !r.Converged {
-			run.Violate(h.Violation{Signature: "C02/converge: fair reconciliation does not reach a lasting fixpoint: " + classify(r.Why), Monitor: "C02/closure", Message: r.Why, Replay: replay()})
-			return
-		}
-		run.Count("antecedent:C02/fixpoint", 1)
-		run.Nontrivial(fmt.Sprintf("rounds:%s:%d", st.sc.Name, r.Rounds))
-		for _, e := range r.Final.EDSs() {
-			if sig, msg := w.CheckConverged(r.Final, e.Namespace, e.Name); sig != "" {
-				run.Violate(h.Violation{Signature: sig, Monitor: "C02/fixpoint", Message: msg, Replay: replay()})
+			if len(starts) >= 20000 {
+				flush()
 			}
 		}
 	})
+	flush()
 	if run.Counter("closures_skipped_deadline") > 0 {
 		run.NotExhaustive(fmt.Sprintf("%d closures skipped at the deadline", run.Counter("closures_skipped_deadline")))
 	}
